@@ -10,7 +10,7 @@ import itertools
 import rx
 
 from .. import chunking
-from ..common import Check, Outcome, Snap, subscribe, bootstrap, interleave
+from ..common import Check, Outcome, Snap, subscribe, subscribe2, bootstrap, interleave
 
 rs = bootstrap()
 
@@ -144,7 +144,7 @@ class C17(Check):
         if enc not in self._ops:
             self._ops[enc] = (rs.data.encode(enc), rs.data.decode(enc))
         enc_op, dec_op = self._ops[enc]
-        e = subscribe(rx.from_(strs).pipe(enc_op), Snap())
+        e = subscribe2(rx.from_(strs).pipe(enc_op), out, 'encode')
         if e.err is not None or not e.done:
             return out.fail('encode-failed', error=repr(e.err), done=e.done)
         if not all(isinstance(x, bytes) for x in e.out):
@@ -170,7 +170,7 @@ class C17(Check):
         # the decoder is also fed bytes it did not produce itself (stdlib one-shot encoding, cut the same way)
         ref = text.encode(enc)
         rcuts = [c for c in case['cuts'] if 0 < c < len(ref)]
-        dr = subscribe(rx.from_(chunking.cut(ref, rcuts)).pipe(dec_op), Snap())
+        dr = subscribe2(rx.from_(chunking.cut(ref, rcuts)).pipe(dec_op), out, 'decode(stdlib bytes)')
         if dr.err is not None or not dr.done or ''.join(dr.out) != text:
             return out.fail('decode-of-stdlib-encoded-bytes-differs', error=repr(dr.err), want=text, got=''.join(x for x in dr.out if isinstance(x, str)),
                             chunks=chunking.cut(ref, rcuts))
@@ -184,7 +184,7 @@ class C17(Check):
             out.nontrivial = True
             out.tags.append('cut-in-char')
 
-        d = subscribe(rx.from_(chunks).pipe(dec_op), Snap())
+        d = subscribe2(rx.from_(chunks).pipe(dec_op), out, 'decode')
         out.observed['chunks_decoded'] += len(chunks)
         if d.err is not None:
             return out.fail('decode-error', error=repr(d.err), chunks=chunks)
